@@ -254,4 +254,7 @@ def run(ctx):
     ctx.section(c10._memoised, ctx)
     ctx.section(c02._escape, ctx, index)
     ctx.section(c02._exacttype, ctx, index)
+    from . import c01
+
+    ctx.section(c01.numeric_rule, ctx, index, "C03.numeric")
 
